@@ -463,8 +463,13 @@ Propose(p, pr, argrec) ==
 
 ProposeAdd(p, i) ==
     /\ i \in 1..Len(kps) /\ ~kps[i].used
-    /\ HasGroup(p) /\ kps[i].owner \notin Members(grp[p].tree)
-    /\ ~\E j \in 1..Len(props) : props[j].kind = "add" /\ props[j].ks = grp[p].ks   \* at most one by-reference add per epoch (DESIGN 3.4)
+    /\ HasGroup(p)
+    \* a key package of somebody who is a member already may be proposed too (the proposal is dropped by the
+    \* committer: duplicate identity), any number of them, each (proposer, key package) once per epoch; of the others
+    \* at most one per epoch (DESIGN 3.4: leaf assignment follows the hash order of the proposal cache)
+    /\ IF kps[i].owner \in Members(grp[p].tree)
+       THEN ~\E j \in 1..Len(props) : props[j].kind = "add" /\ props[j].ks = grp[p].ks /\ props[j].kp = i /\ props[j].by = p
+       ELSE ~\E j \in 1..Len(props) : props[j].kind = "add" /\ props[j].ks = grp[p].ks /\ kps[props[j].kp].owner \notin Members(grp[p].tree)
     /\ Propose(p, [kind |-> "add", kp |-> i, target |-> 0], [kp |-> i])
 
 ProposeRemove(p, l) ==
@@ -575,7 +580,10 @@ Commit(p, byval, dt) ==
     IN
     /\ HasGroup(p) /\ Len(commits) < MaxCommits /\ g.epoch < MaxEpoch
     /\ (dt => "detached" \in Features)
-    /\ Cardinality({j \in g.cache : props[j].kind = "add"}) <= 1
+    \* generator restriction (DESIGN 3.4): at most one cached by-reference add that can take effect -- its owner is
+    \* no member, or is removed by this very commit; adds for sitting members are dropped in whatever order
+    /\ LET gone == {Node(g.tree, 2 * items[i].target).who : i \in {i \in 1..Len(items) : items[i].kind = "rem" /\ items[i].target \in OccupiedLeaves(g.tree)}}
+       IN Cardinality({j \in g.cache : props[j].kind = "add" /\ (kps[props[j].kp].owner \notin Members(g.tree) \/ kps[props[j].kp].owner \in gone)}) <= 1
     /\ IF \E i \in 1..Len(byval) : byval[i].kind = "rem" /\ byval[i].target \notin OccupiedLeaves(g.tree)
        THEN \* CommitBuilder::remove_member validates the index against the current tree
             /\ UNCHANGED <<grp, commits, det>>
@@ -721,6 +729,11 @@ ApplyPending(p) ==
     /\ IF g.pend = 0
        THEN /\ UNCHANGED grp
             /\ Record("ApplyPending", p, [x |-> 0], "err:no-pending", [x |-> 0])
+       ELSE IF commits[g.pend].baseKs # g.ks
+       THEN \* a pending commit that a detached commit has overtaken (ApplyDetached leaves it in place): it is inert,
+            \* it cannot be applied and stays until it is cleared or somebody else's commit is processed
+            /\ UNCHANGED grp
+            /\ Record("ApplyPending", p, [x |-> 0], "err:epoch", [x |-> 0])
        ELSE IF StuckF14(p)
        THEN /\ UNCHANGED grp
             /\ Record("ApplyPending", p, [x |-> 0], "err:epoch:F14", [x |-> 0])
@@ -760,7 +773,7 @@ DeliverCommit(q, n) ==
             /\ grp' = [grp EXCEPT ![q] = ApplyOwn(g, n)]
             /\ UNCHANGED zomb
             /\ Record("DeliverCommit", q, args, "ok:own", [x |-> 0])
-       ELSE IF c.by = q /\ opt.enc
+       ELSE IF c.by = q /\ ~c.external /\ opt.enc
        THEN \* own commit whose pending state is gone: an own PrivateMessage cannot be opened; a public one is
             \* processed like anybody else's until the update path is reached (the path secrets are gone), so a
             \* path-less public commit is even accepted
@@ -804,7 +817,8 @@ DeliverCommit(q, n) ==
              \* confirmation tag
              pskSame == \A i \in 1..Len(c.psks) : c.psks[i].kind = "psk" => pskStore[q][c.psks[i].id] = c.psks[i].val
              rpskOk == \A i \in 1..Len(c.psks) : c.psks[i].kind = "rpsk" => RetainsEpoch(q, c.psks[i].epoch)
-         IN IF c.by = q /\ c.path
+         \* (an external commit is not "own" for the group object the joiner gave up: its sender is no member)
+         IN IF c.by = q /\ ~c.external /\ c.path
             THEN /\ UNCHANGED <<grp, zomb>>
                  /\ Record("DeliverCommit", q, args, "err:own-commit", [x |-> 0])
             ELSE IF ~dec.ok
@@ -824,7 +838,7 @@ DeliverCommit(q, n) ==
                                                         !.priv = MergeFn(RestrictFn(priv0, keep), learned),
                                                         !.cache = {}, !.pend = 0, !.pendUpd = {}, !.seenC = {}, !.sendGen = 0, !.recv = <<>>, !.hsSend = 0, !.hsRecv = <<>>]]
                  /\ UNCHANGED zomb
-                 /\ Record("DeliverCommit", q, args, IF c.by = q THEN "ok:own" ELSE "ok", [x |-> 0])
+                 /\ Record("DeliverCommit", q, args, IF c.by = q /\ ~c.external THEN "ok:own" ELSE "ok", [x |-> 0])
     /\ RepoFollows(q)
     /\ UNCHANGED <<kps, props, commits, winner, opt, store, apps, det>>
 
@@ -990,7 +1004,9 @@ ApplyDetached(p, n) ==
             /\ Record("ApplyDetached", p, [commit |-> n], "err:epoch:F14", [x |-> 0])
        ELSE IF commits[n].baseKs = g.ks
        THEN /\ IsWinner(n)
-            /\ grp' = [grp EXCEPT ![p] = ApplyOwn(g, n)]
+            \* (apply_detached_commit does not touch the pending commit: one built on the epoch that is left stays
+            \* behind, stale)
+            /\ grp' = [grp EXCEPT ![p] = [ApplyOwn(g, n) EXCEPT !.pend = g.pend]]
             /\ Record("ApplyDetached", p, [commit |-> n], "ok", [x |-> 0])
        ELSE /\ UNCHANGED grp
             /\ Record("ApplyDetached", p, [commit |-> n], "err:epoch", [x |-> 0])
@@ -1305,11 +1321,18 @@ DecapErrs == {"err:decap-lca-filtered", "err:decap-not-in-resolution", "err:deca
 NoDecapFailure ==
     \A i \in 1..Len(hist) : ~(hist[i].a = "DeliverCommit" /\ hist[i].res \in DecapErrs)
 
-\* C11: one pending commit, built on the member's current epoch
+\* C11: one pending commit, the member's own, built on its current epoch -- or on an epoch it has left by applying
+\* a detached commit, in which case it is stale and is never applied (PendingAppliedOnItsBase)
 PendingOnCurrentEpoch ==
     \A p \in Parties : (HasGroup(p) /\ grp[p].pend # 0) =>
         /\ commits[grp[p].pend].by = p
-        /\ commits[grp[p].pend].baseKs = grp[p].ks
+        /\ \/ commits[grp[p].pend].baseKs = grp[p].ks
+           \/ "detached" \in Features /\ commits[grp[p].pend].baseEpoch < grp[p].epoch
+\* every own commit that was applied (pending, detached or echoed back) was built on the state it was applied to
+PendingAppliedOnItsBase ==
+    \A i \in 1..Len(hist) :
+        (hist[i].a \in {"ApplyPending", "ApplyDetached"} /\ hist[i].res = "ok" /\ i > 1) =>
+            LET n == hist[i].post.ks IN commits[n].baseEpoch + 1 = hist[i].post.epoch
 
 \* C06: the two shipped storage providers retain the same history (their trimming code differs)
 ProvidersAgree == \A p \in Parties : store[p].epochs = store[p].sql
